@@ -355,6 +355,11 @@ def run_method(spec: dict, pcode: str, max_ticks: int = 60, settle: int = 6) -> 
                     assert exc is not None
                     cat, site = classify(exc)
                     node = getattr(exc, "node", None)
+                    c = getattr(node, "tag_operator_value", None) if type(node).__name__ == "SimulateNode" else None
+                    if cat == "other" and c is not None and c.tag_unit and c.tag_value_numeric:
+                        # any failure of `simulate_value_and_unit` other than an unknown tag comes from the unit
+                        # conversion (e.g. TypeError float * Decimal)
+                        cat, site = "unit", "simulate"
                     out["failure"] = {"category": cat, "site": site, "text": (str(getattr(exc, "message", "")) or str(exc))[:400],
                                       "exc": type(exc).__name__,
                                       "line": node.position.line if node is not None else None}
